@@ -128,6 +128,10 @@ def get_augmented_cycle_stat_from_samples(vals, cycle_vect, phase, func=np.mean)
 
     for ii in range(ncycles):
         inds = map_cycle_to_samples_augmented(cycle_vect, ii, phase)
+        if inds is None:
+            # No augmented segment for this cycle (eg the first cycle)
+            out[ii] = np.nan
+            continue
         if isinstance(vals, tuple):
             args = [v[inds] for v in vals]
             out[ii] = func(*args)
